@@ -830,6 +830,10 @@ def get_mttkrp_factors(
 
     assert len(U) == ndims, "List of factor matrices is the wrong length"
 
+    # The matrix of mode n is skipped; the others are combined column by column
+    ncols = {np.shape(U[i])[-1] for i in range(ndims) if i != n}
+    assert len(ncols) <= 1, "Factor matrices must all have the same number of columns"
+
     return U
 
 
